@@ -47,6 +47,8 @@ ASSUMPTIONS = [
     'mapproxy truncates tile timestamps to whole seconds on purpose: if floor(tile time) == floor(threshold) either outcome is accepted (counted as unspecified)',
     'fixed-offset local time zones (no DST transitions); thresholds and timestamps are compared as recorded (SimFS st_mtime / sqlite last_modified), never against wall time',
     'seed task with meta tiles: the walker judges a meta tile by its main tile; mixed-freshness meta tiles are unspecified',
+    'linked single-colour tiles in the symlink flavour only: with hardlinks all links share one modification time, a limitation '
+    'the documentation of link_single_color_images states',
 ]
 
 _seq = [0]
